@@ -256,6 +256,11 @@ def end_to_end(chk, b, rng, tier):
     models = [("big-trees", big_tree_model(rng))]
     for i in range(2 if tier == "quick" else 10):
         models.append(("random-%d" % i, G.random_model(rng, size="medium", hostile_names=True)))
+    # runs of consecutive 33-70 KB commits, sibling trees and tags: what a reader that recycles a few buffers trips over
+    from ..campaign import add_big_runs
+    mb = G.random_model(rng, size="small", hostile_names=False)
+    add_big_runs(rng, mb, mb.pool)
+    models.append(("big-runs", mb))
     nrun = 0
     for name, m in models:
         d = os.path.join(scratch, "e2e-" + name)
@@ -273,13 +278,13 @@ def end_to_end(chk, b, rng, tier):
             bad = O.compare_numeric(ex, js or {}, [k_ for k_ in O.CAPS if k_ != "reference_count"])
             if bad:
                 chk.violation("C16/end-to-end/values-differ/" + name.split("-")[0], {"repo": name, "diffs": bad[:4]})
-        if name == "big-trees":
+        if name in ("big-trees", "big-runs"):
             # the same stream under the race detector: the bytes handed to the parsers must not be written by the reader
             # goroutine while they are parsed (happens-before evidence, independent of how the schedule falls)
             szr = b.sizer(race=True)
-            logdir = os.path.join(scratch, "e2e-race")
+            logdir = os.path.join(scratch, "e2e-race-" + name)
             os.makedirs(logdir, exist_ok=True)
-            for k in range(8):
+            for k in range(8 if name == "big-trees" else 4):
                 r = R.sizer(szr, gitdir, ["--json", "--no-progress"], env={"GORACE": "halt_on_error=0 log_path=%s/race" % logdir,
                                                                           "GOMAXPROCS": ["8", "2", "16", "4"][k % 4]}, tmpdir=scratch, timeout=600)
                 chk.count()
@@ -290,7 +295,7 @@ def end_to_end(chk, b, rng, tier):
                 if b"WARNING: DATA RACE" in txt:
                     nraces += txt.count(b"WARNING: DATA RACE")
                     chk.violation("C16/end-to-end/data-race-on-object-bytes", {"report": txt[:2500]})
-            chk.cov["end_to_end_race_reports"] = nraces
+            chk.cov["end_to_end_race_reports"] = chk.cov.get("end_to_end_race_reports", 0) + nraces
         shutil.rmtree(d, ignore_errors=True)
     chk.cov["end_to_end_runs"] = nrun
     chk.nontrivial("end-to-end")
